@@ -23,6 +23,14 @@ func evalC01(op string, args []string) string {
 		if err != nil {
 			return "err"
 		}
+		// the parsed packet is a value of its own: for every second datagram the buffer it was read into is reused
+		// (as a receive loop does) before the packet is looked at and encoded again
+		if len(b)%2 == 1 {
+			full := b[:cap(b)]
+			for i := range full {
+				full[i] = 0x5a
+			}
+		}
 		w, err := p.MarshalBinary()
 		r := "err"
 		if err == nil {
@@ -30,9 +38,16 @@ func evalC01(op string, args []string) string {
 		}
 		return "ok " + showPacketFields(p) + " " + r
 	case "parseattrs":
-		as, err := radius.ParseAttributes(unhx(args[0]))
+		ab := unhx(args[0])
+		as, err := radius.ParseAttributes(ab)
 		if err != nil {
 			return "err"
+		}
+		if len(ab)%2 == 1 {
+			full := ab[:cap(ab)]
+			for i := range full {
+				full[i] = 0x5a
+			}
 		}
 		return "ok " + showAttributes(as)
 	case "marshal":
